@@ -139,6 +139,8 @@ class Burst(BytesInterface):
     @target_radio_id.setter
     def target_radio_id(self, target_radio_id: int) -> None:
         self._target_radio_id = target_radio_id
+        # a value that was given (id 0 included) is not replaced by a guess from the burst contents
+        self._target_radio_id_resolve_attempt = True
 
     def guess_target_radio_id(self) -> int:
         """
